@@ -248,7 +248,11 @@ func (r *ClientPeerRef) Send(ctx context.Context, msg []byte) (_ *signaling_rpc.
 
 			// Stream with remote was re-opened.
 			if sessionSeqno == nil || *sessionSeqno != *tkr.open {
-				txed = false
+				// if our message is still the pending outgoing message it will be
+				// re-transmitted in the new session epoch: keep waiting for its ack.
+				if tkr.out == nil || tkr.out.Seqno != seqno {
+					txed = false
+				}
 				sessionSeqno = tkr.open
 			}
 
